@@ -358,4 +358,8 @@ def run(ctx, progs):
         r4_layout_agreement(ctx, P)
         r5_failure_links_nothing(ctx, P)
         r6_requested_size_multiple(ctx, P)
+        from . import c18
+        c18.r5_by_value(ctx, P, R="C05.R7")
+        from . import c12
+        c12.r4_rounding_order(ctx, P, R="C05.R8")
     ctx.config = None
